@@ -749,6 +749,48 @@ def main(ctx):
                           signature={'oracle': 'format', 'variant': k0,
                                      'block': kind.split(':')[1] if ':' in kind else ''},
                           what=f'formatting variant "{kind}" changes what is read')
+    # edge stream, implementation-side oracle only (the Coq model answers Err "outside the
+    # model" here and wf_text excludes it): an element group WITHOUT members, (a) among other
+    # groups, (b) in the configuration where write_msh takes its one-group-per-element path
+    # (as many non-ALL groups as elements and as many members as elements)
+    edge = []
+    for k in range({'quick': 4, 'thorough': 24}.get(tier, 4)):
+        path = 'fastpath' if k % 2 else 'plain'
+        em = cm.gen_mesh(ctx.rng, types=None if k >= 2 else ['tet'], features={
+            'groups': 'some', 'empty_group': path, 'sections': 'none', 'materials': 'none'})
+        if path == 'fastpath' and sum(len(ids) for _, ids, _ in em['elems']) < 2:
+            path = 'plain'
+            em = cm.gen_mesh(ctx.rng, features={'groups': 'some', 'empty_group': path,
+                                                'sections': 'none', 'materials': 'none'})
+        # which path write_msh takes is decided by its own guard: len(values) == n_elements ==
+        # len(element_groups) - 1 (values = members of the non-ALL groups)
+        n_el = sum(len(ids) for _, ids, _ in em['elems'])
+        n_val = sum(len(v) for g, v in em['egroups'] if g != 'ALL')
+        path = 'fastpath' if n_val == n_el == len(em['egroups']) - 1 else 'plain'
+        em['meta']['empty_group'] = path
+        edge.append(em)
+    res_e = cm.run_child(ctx, [{'op': 'write_read', 'id': i, 'dir': str(work / f'e{i}'), 'mesh': m,
+                                'msh_only': True} for i, m in enumerate(edge)], 'edge')
+    for i, m in enumerate(edge):
+        r = res_e[i]
+        path = m['meta']['empty_group']
+        ctx.case(['edge-mesh', m['node_ids'], m['elems'], m.get('egroups')], nontrivial=True)
+        ctx.count('edge:empty-element-group:' + path)
+        n_eval += 1
+        comps = ['exception'] if 'read' not in r else roundtrip_diff(m, r['read'])
+        if comps:
+            impl_bad += 1
+            ctx.violation('impl-violation', {'mesh': m},
+                          'read(write(mesh)) = mesh, the element group without members included',
+                          {'differs_in': comps, 'error': r.get('write_error') or r.get('read_error'),
+                           'written_egroup_lines': [l for l in (r.get('msh') or '').split('\n')
+                                                    if 'EGROUP' in l][:8],
+                           'read_back_groups': (r.get('read') or {}).get('egroups')},
+                          'C01 oracle on implementation (outside wf_text: empty element group)',
+                          found_input=True,
+                          signature={'oracle': 'roundtrip', 'edge': 'empty-element-group', 'path': path,
+                                     'component': ','.join(comps)},
+                          what=f'round trip of a mesh with an empty element group ({path}) changes {comps}')
     for k, why in orient_bad[:3]:
         impl_bad += 1
         c = ocases[k]
